@@ -67,3 +67,19 @@ Example C03_nonvacuous :
   fst (run (read_bytestring 20) [91; 0; 0; 0; 16; 0; 0; 0; 0; 1; 2]) = inr EEnd /\
   readable_dname [1] = DUnchanged /\ readable_dname [3; 119; 119; 119; 0] = DDone 1 [3; 119; 119; 119; 0].
 Proof. vm_compute. repeat split. Qed.
+
+(* what the reader makes of a map that repeats a key (invalid CBOR, but untrusted input): the real CdnsBlockRead never resets its item
+   vectors and tables before reading them, so a repeated key APPENDS (also across a repeated block-tables map); everywhere else the last
+   occurrence wins (the preamble's vectors are cleared first).  The model follows the code (Schema.upd_slot) - found by the thorough tier of
+   this check, which compares the reader's results on mutated files *)
+Example C03_repeated_keys_as_the_code :
+  run (read_val 60 Block) [163; 0; 161; 0; 130; 0; 0; 5; 129; 160; 5; 129; 160] =
+    (inl (VR [Some (VR [Some (VL [VN 0; VN 0]); None]); None; None; Some (VL []); Some (VL []);
+              Some (VL [VR [None; None; None; None]; VR [None; None; None; None]])]), []) /\
+  run (read_val 60 Block) [164; 0; 161; 0; 130; 0; 0; 2; 161; 0; 129; 65; 7;  2; 162; 0; 129; 65; 8; 0; 129; 65; 9; 2; 160] =
+    (inl (VR [Some (VR [Some (VL [VN 0; VN 0]); None]); None;
+              Some (VR [Some (VL [VS [7]; VS [8]; VS [9]]); Some (VL []); Some (VL []); Some (VL []); Some (VL []); Some (VL []); Some (VL []); Some (VL []); Some (VL [])]);
+              Some (VL []); Some (VL []); Some (VL [])]), []) /\
+  run (read_val 60 CollectionParameters) [162; 6; 129; 1; 6; 129; 2] =
+    (inl (VR [None; None; None; None; Some (VL []); Some (VL []); Some (VL [VN 2]); None; None; None]), []).
+Proof. vm_compute. repeat split. Qed.
